@@ -356,6 +356,7 @@ _orig_optimize = None
 
 def _optimize_wrapper(self):
     ctx = CTX
+    self.__dict__["_verif_null_value"] = False
     status = _orig_optimize(self)
     if ctx is None:
         return status
@@ -368,8 +369,22 @@ def _optimize_wrapper(self):
         ctx.bump(f"fault:{f['verdict']}")
         ctx.bump("fault_in_worker" if ctx.current_worker is not None else "fault_in_parent")
         self._status = f["verdict"]
+        if f.get("null_value"):
+            # as the CPLEX/Gurobi interfaces do after a failed solve: no objective value at all
+            self.__dict__["_verif_null_value"] = True
+            ctx.bump("fault:null_objective_value")
         return f["verdict"]
     return status
+
+
+_orig_value = None
+
+
+def _value_wrapper(self):
+    prob = getattr(self, "problem", None)
+    if prob is not None and prob.__dict__.get("_verif_null_value"):
+        return None
+    return _orig_value.fget(self)
 
 
 def install():
@@ -378,9 +393,14 @@ def install():
 
     import cobra.util.process_pool as pp
 
+    global _orig_value
     if _orig_optimize is None:
+        import optlang.glpk_interface as gi
+
         _orig_optimize = oi.Model.optimize
         oi.Model.optimize = _optimize_wrapper
+        _orig_value = gi.Objective.__dict__["value"]
+        gi.Objective.value = property(_value_wrapper)
     pp.multiprocessing = _MPShim
 
 
